@@ -1,6 +1,7 @@
 INIT Init
 NEXT Next
 CONSTANTS
+  GapSet = "base"
   Budget = 1000000
   Mutants = TRUE
 INVARIANTS TypeOK DoneLegal DeviationsCounted LiteralsReadBack
